@@ -146,6 +146,16 @@ def vol_check(kind, case, rec):
         q2 = (fem.TriangleQuadrature(order=5) if dim == 2 else fem.TetrahedronQuadrature(order=5)) if info["simplex"] else fem.GaussLegendre(order=info["order"] + 1, dim=dim)
         rec.close("copy(quadrature=)=fresh-region", same_arrays(region.copy(quadrature=q2), gm.region(mesh, info, quadrature=q2), names), 1e-14)
         rec.close("copy-leaves-the-original", same_arrays(region, gm.region(mesh, info), names), 1e-14)
+    # the same mesh in another length unit (nanometres .. kilometres): volumes scale by L^dim, gradients by 1 / L, the positive
+    # orientation is seen without a warning
+    L = (1e-9, 1e-6, 1e-3, 1e3, 1e6)[(spec["jseed"] + spec["cseed"] + mesh.ncells) % 5]
+    ml = mesh.copy(points=np.array(mesh.points) * L)
+    with warnings.catch_warnings(record=True) as wl:
+        warnings.simplefilter("always")
+        rl = gm.region(ml, info)
+    rec.require("no-warning-in-another-length-unit", not any("negative" in str(w_.message).lower() or "volume" in str(w_.message).lower() for w_ in wl), [str(w_.message)[:60] for w_ in wl])
+    rec.close("dV-in-another-length-unit=L^dim dV", float(np.abs(np.asarray(rl.dV) / L**dim - np.asarray(region.dV)).max() / np.abs(region.dV).max()), 1e-12, {"L": L})
+    rec.close("dhdX-in-another-length-unit=dhdX / L", float(np.abs(np.asarray(rl.dhdX) * L - np.asarray(region.dhdX)).max() / np.abs(region.dhdX).max()), 1e-11, {"L": L})
     rec.label("cells>=2" if mesh.ncells >= 2 else "single-cell")
     if spec["curve"] > 0:
         rec.label("curved")
